@@ -236,7 +236,13 @@ def run_check(prop, tier, base_seed, runs_override=None, workers=None):
             out_lines.append(f'  note: {path} fails with the same clause in a fresh interpreter but with a different event log '
                              '(result of the code under test varies between executions)')
         elif fr['violation'] is None or fr['violation']['clause'] != r1.violation.clause:
-            raise core.HarnessError(f'replay {path} did not reproduce in a fresh interpreter: {fr}')
+            # seen by a worker, again from the seed and again after shrinking in this process, but not in a fresh
+            # interpreter: try a few more times; whatever the outcome this is a violation whose replay is probabilistic
+            for _ in range(4):
+                if fr['violation'] is not None and fr['violation']['clause'] == r1.violation.clause:
+                    break
+                fr = fresh_replay(path, prop, hashseed=str(_ + 1))
+            out_lines.append(f'  note: {path} did not fail in every fresh interpreter (result of the code under test varies between executions)')
         out_lines.append(f'VIOLATION property={prop} replay={path}')
         out_lines.append(f'  {msig}: {r1.violation.detail}')
         violations += 1
